@@ -12,8 +12,11 @@ package main
 //	      | fac:<num>                factory.CreateMesg(num) and CreateField for a few numbers
 //	      | open:<a>.<b>...          opener.Open over fixtures (its own pool of decoders, own workers)
 //	   mode = n (nil options) | o (its own &Options{}) | s (ONE options object with Factory set, shared by all ops of
-//	          the line) | z (ONE options object with nil Factory shared by all ops of the line: known finding KF-C15-1)
-//	→ same=<one 0/1 per op: result of the concurrent run equals the result of the solo run>
+//	          the line) | z (ONE options object with nil Factory shared by all ops of the line; until /repo's repair of
+//	          KF-C15-1 every ToMesg wrote it)
+//	→ same=<one 0/1 per op: result of the concurrent run equals the result of the solo run> opts=<ro|w>
+//	   opts: the two options objects shared by the ops of the line are, after the concurrent phase, exactly what they
+//	   were before it (ro) or not (w): shared option values are only read.
 //
 // Op i runs on goroutine i mod k; all goroutines start together. The solo runs are done afterwards, one by one, on fresh
 // objects. `fresh` re-executes the line in a child process, so that the concurrent phase races the very first use of the
@@ -126,7 +129,7 @@ func genValidMesgs(ft byte, seed uint64, n int) []proto.Message {
 
 type concShared struct {
 	optSet *mesgdef.Options // Factory set: only read by ToMesg
-	optNil *mesgdef.Options // Factory nil: every ToMesg writes it (KF-C15-1)
+	optNil *mesgdef.Options // Factory nil: ToMesg takes the standard factory, in a local (it assigned it here: KF-C15-1, repaired)
 }
 
 // runConcOp executes one operation on objects of its own and returns a digest of its result.
@@ -348,6 +351,7 @@ func execConcurrent(args []string) string {
 	prev := runtime.GOMAXPROCS(procs)
 	defer runtime.GOMAXPROCS(prev)
 	sh := &concShared{optSet: mesgdef.DefaultOptions(), optNil: &mesgdef.Options{}}
+	optSetBefore, optNilBefore := *sh.optSet, *sh.optNil
 	res := make([]uint64, len(ops))
 	var wg sync.WaitGroup
 	start := make(chan struct{})
@@ -363,6 +367,7 @@ func execConcurrent(args []string) string {
 	}
 	close(start)
 	wg.Wait()
+	optsRO := *sh.optSet == optSetBefore && *sh.optNil == optNilBefore && optNilBefore.Factory == nil && optSetBefore.Factory != nil
 	// solo runs, one by one, on fresh shared option objects
 	var sb strings.Builder
 	sb.WriteString("same=")
@@ -373,6 +378,11 @@ func execConcurrent(args []string) string {
 		} else {
 			sb.WriteByte('0')
 		}
+	}
+	if optsRO {
+		sb.WriteString(" opts=ro")
+	} else {
+		sb.WriteString(" opts=w")
 	}
 	return sb.String()
 }
@@ -392,13 +402,12 @@ func genConcurrent(emit func(string), tier string, rng *Rng) {
 	if v := os.Getenv("VERIF_CONC_N"); v != "" {
 		n, _ = strconv.Atoi(v)
 	}
-	noZ := os.Getenv("VERIF_CONC_NOZ") != ""
 	// the very first operation of the run races the first use of the lazily built package state, in a fresh process
 	emit("concurrent fresh k4 g4 s1 fac:20 fac:18 fac:0 fac:21 fac:19 fac:34 fac:23 fac:49")
-	if !noZ { // four conversions sharing one options object with nil Factory, started together
-		emit("concurrent k4 g4 s1 file:4:11:z file:4:22:z file:6:33:z file:9:44:z")
-		emit("concurrent k2 g2 s2 file:4:55:z file:20:66:z")
-	}
+	// conversions sharing one options object with nil Factory, started together (dense: nothing else runs; the race
+	// detector's best chance at an unsynchronised write of the shared object)
+	emit("concurrent k4 g4 s1 file:4:11:z file:4:22:z file:6:33:z file:9:44:z")
+	emit("concurrent k2 g2 s2 file:4:55:z file:20:66:z")
 	for i := 0; i < n; i++ {
 		k := []int{2, 4, 16}[rng.Intn(3)]
 		toks := []string{"concurrent"}
@@ -410,7 +419,7 @@ func genConcurrent(emit func(string), tier string, rng *Rng) {
 		if nops > 24 {
 			nops = 24
 		}
-		zMix := !noZ && rng.Intn(4) == 0 // a quarter of the mixes share a nil-factory options object
+		zMix := rng.Intn(4) == 0 // a quarter of the mixes share a nil-factory options object
 		for j := 0; j < nops; j++ {
 			var op string
 			switch x := rng.Intn(20); {
